@@ -127,6 +127,12 @@ func (s *sessionState) unmarshal(data []byte) bool {
 	numCerts := int(data[0])<<8 | int(data[1])
 	data = data[2:]
 
+	// Every certificate takes at least its 4-byte length prefix: refuse a
+	// count the remaining input cannot hold before allocating the table.
+	if len(data) < 4*numCerts {
+		return false
+	}
+
 	s.certificates = make([][]byte, numCerts)
 	for i := range s.certificates {
 		if len(data) < 4 {
